@@ -515,3 +515,238 @@ Proof.
 Qed.
 
 End Moves2.
+
+Lemma width_set_cursor t r c : width (set_cursor t r c) = width t. Proof. reflexivity. Qed.
+Lemma height_set_cursor t r c : height (set_cursor t r c) = height t. Proof. reflexivity. Qed.
+Lemma width_set_row t r : width (set_row t r) = width t. Proof. reflexivity. Qed.
+Lemma height_set_row t r : height (set_row t r) = height t. Proof. reflexivity. Qed.
+Lemma width_set_col t r : width (set_col t r) = width t. Proof. reflexivity. Qed.
+Lemma height_set_col t r : height (set_col t r) = height t. Proof. reflexivity. Qed.
+Lemma width_set_last t r : width (set_last t r) = width t. Proof. reflexivity. Qed.
+Lemma height_set_last t r : height (set_last t r) = height t. Proof. reflexivity. Qed.
+
+Ltac wh_norm :=
+  repeat first [ rewrite width_set_cursor | rewrite height_set_cursor | rewrite width_set_row
+               | rewrite height_set_row | rewrite width_set_col | rewrite height_set_col
+               | rewrite width_set_last | rewrite height_set_last ].
+
+Lemma abs_fields t t' :
+  t_prim t' = t_prim t -> t_alt t' = t_alt t -> t_onalt t' = t_onalt t ->
+  t_top t' = t_top t -> t_bot t' = t_bot t -> t_svp t' = t_svp t -> t_sva t' = t_sva t ->
+  abs t' = set_vpen (set_pos (abs t) (t_row t') (t_col t') (t_last t')) (t_pen t').
+Proof.
+  intros E1 E2 E3 E5 E6 E7 E8.
+  unfold abs, set_pos, set_vpen, height, width, active;
+    cbn [v_rows v_cols v_grid v_hidden v_pen v_top v_bot v_saved_n v_saved_a v_row v_col v_pending].
+  rewrite E1, E2, E3, E5, E6, E7, E8. reflexivity.
+Qed.
+
+Section Moves3.
+Variables (w h : Z) (t : term).
+Hypothesis HI : Inv w h t.
+Let HW := Inv_WF w h t HI.
+
+Definition decstbm_fin (top bot : Z) : tres term :=
+  let hh := height t in
+  let top := if top <? 0 then 0 else top in
+  let bot := if (bot <? 0) || (bot >? hh - 1) then hh - 1 else bot in
+  if top >=? bot then TOk t
+  else TOk (set_cursor (set_margins (set_last t false) top bot (t_left t) (t_right t)) 0 0).
+
+Lemma decstbm_eval0 : decstbm t [] = decstbm_fin 0 (height t - 1).
+Proof. reflexivity. Qed.
+Lemma decstbm_eval1 a : decstbm t [[a]] = decstbm_fin (i64 (a - 1)) (height t - 1).
+Proof. reflexivity. Qed.
+Lemma decstbm_eval2 a b : decstbm t [[a]; [b]] = decstbm_fin (i64 (a - 1)) (i64 (b - 1)).
+Proof. reflexivity. Qed.
+
+Lemma decstbm_fin_sim a b T B :
+  pv_ok a -> pv_ok b ->
+  T = a - 1 \/ (T = 0 /\ a = 0) -> B = b - 1 \/ (B = h - 1 /\ b = 0) ->
+  exists t', decstbm_fin T B = TOk t' /\ Inv w h t' /\ abs t' = set_margins_tb (abs t) a b.
+Proof.
+  intros Ha Hb ET EB. unfold pv_ok in *. unfold decstbm_fin; cbv zeta.
+  rewrite (Inv_height w h t HI).
+  unfold set_margins_tb. rewrite (abs_rows w h t HI).
+  set (T1 := if T <? 0 then 0 else T).
+  set (B1 := if (B <? 0) || (B >? h - 1) then h - 1 else B).
+  set (b' := if b =? 0 then h else Z.min b h).
+  assert (HT1 : T1 = dflt a - 1) by (unfold T1, dflt; repeat case_if; lia).
+  assert (Hb' : 1 <= b' <= h) by (unfold b'; destruct HI as [? ? ?]; case_if; lia).
+  assert (HB1 : B1 = b' - 1).
+  { unfold B1, b'. destruct HI as [? ? ?]. repeat case_if; lia. }
+  assert (Hd : 1 <= dflt a) by (unfold dflt; case_if; lia).
+  clearbody T1 B1 b'. subst T1 B1.
+  destruct (dflt a <? b') eqn:C.
+  - destruct (dflt a - 1 >=? b' - 1) eqn:C2; [exfalso; lia|].
+    eexists; split; [reflexivity|]. split.
+    + apply (Inv_frame w h t); auto.
+      apply WFs_set_cursor; [| destruct HI as [? ? ?]; lia | destruct HI as [? ? ?]; lia].
+      apply (WFs_set_margins 0 w h (set_last t false)); [now apply WFs_set_last | | |]; lia.
+    + reflexivity.
+  - destruct (dflt a - 1 >=? b' - 1) eqn:C2; [|exfalso; lia].
+    eexists; split; [reflexivity|]. split; [assumption | reflexivity].
+Qed.
+
+Lemma sim_decstbm a b : par_ok a = true -> par_ok b = true ->
+  exists t', decstbm t (p2 a b) = TOk t' /\ Inv w h t' /\ abs t' = set_margins_tb (abs t) (pval a) (pval b).
+Proof.
+  intros Ha Hb. apply par_ok_pv in Ha; apply par_ok_pv in Hb.
+  pose proof (Inv_height w h t HI) as Hh.
+  destruct a as [|x]; destruct b as [|y]; cbn [p2 pval] in *; unfold pv_ok in *.
+  - rewrite decstbm_eval0, Hh. apply decstbm_fin_sim; unfold pv_ok; try lia;
+      first [left; reflexivity | right; split; reflexivity].
+  - rewrite decstbm_eval2, !i64_id by lia. apply decstbm_fin_sim; unfold pv_ok; try lia;
+      first [left; reflexivity | right; split; reflexivity].
+  - rewrite decstbm_eval1, Hh, !i64_id by lia. apply decstbm_fin_sim; unfold pv_ok; try lia;
+      first [left; reflexivity | right; split; reflexivity].
+  - rewrite decstbm_eval2, !i64_id by lia. apply decstbm_fin_sim; unfold pv_ok; try lia;
+      first [left; reflexivity | right; split; reflexivity].
+Qed.
+
+Lemma on_alt_abs : on_alt (abs t) = t_onalt t.
+Proof. unfold on_alt, abs; cbn. destruct (t_onalt t); reflexivity. Qed.
+
+Lemma sim_decsc : Inv w h (decsc t) /\ abs (decsc t) = save_cursor (abs t).
+Proof.
+  pose proof HI as [? ? ? ? ? Hawm Halt [Hss Hdes] ? ?].
+  assert (Hsp : saved_plain (save_of t)).
+  { split; [exact Hawm|]. split; [reflexivity|]. exact Hdes. }
+  split.
+  - unfold decsc. rewrite Halt. destruct (t_onalt t) eqn:E.
+    + constructor; cbn [t_md t_cs t_svp t_sva t_onalt set_sva]; try assumption.
+      * apply WFs_set_sva; [assumption | apply (save_of_ok 0 w h); assumption].
+      * rewrite E; assumption.
+      * split; assumption.
+    + constructor; cbn [t_md t_cs t_svp t_sva t_onalt set_svp]; try assumption.
+      * apply WFs_set_svp; [assumption | apply (save_of_ok 0 w h); assumption].
+      * rewrite E; assumption.
+      * split; assumption.
+  - unfold save_cursor. rewrite on_alt_abs. unfold decsc. rewrite Halt.
+    destruct (t_onalt t) eqn:E; unfold abs, height, width, active; cbn; rewrite E; reflexivity.
+Qed.
+
+Lemma sim_decrc : Inv w h (decrc t) /\ abs (decrc t) = restore_cursor (abs t).
+Proof.
+  pose proof HI as [? ? ? Hirm Hlnm Hawm Halt [Hss Hdes] [Hpa Hpc] [Haa Hac]].
+  pose proof (Inv_height w h t HI) as Hh. pose proof (Inv_width w h t HI) as Hw.
+  split.
+  - constructor; auto.
+    + now apply decrc_ok.
+    + unfold decrc; cbv zeta; repeat case_if; cbn; assumption.
+    + unfold decrc; cbv zeta; repeat case_if; cbn; assumption.
+    + unfold decrc; cbv zeta. rewrite Halt. destruct (t_onalt t); repeat case_if; cbn; assumption.
+    + unfold decrc; cbv zeta; repeat case_if; cbn; congruence.
+    + unfold decrc; cbv zeta. rewrite Halt.
+      destruct (t_onalt t); repeat case_if; cbn;
+        first [destruct Hac as [? Hd]; split; [reflexivity | exact Hd]
+              | destruct Hpc as [? Hd]; split; [reflexivity | exact Hd]].
+    + unfold decrc; cbv zeta; repeat case_if; cbn; split; assumption.
+    + unfold decrc; cbv zeta; repeat case_if; cbn; split; assumption.
+  - unfold restore_cursor. rewrite on_alt_abs.
+    rewrite (abs_fields t (decrc t)); try (unfold decrc; cbv zeta; repeat case_if; reflexivity).
+    unfold clamp_pos. rewrite (abs_rows w h t HI), (abs_cols w h t HI).
+    unfold decrc; cbv zeta. rewrite Halt.
+    destruct (t_onalt t) eqn:E; cbn [abs v_saved_a v_saved_n abs_saved].
+    all: wh_norm; rewrite ?Hh, ?Hw.
+    all: cbn [t_row t_col set_cursor].
+    all: match goal with |- context[s_row ?s >? h - 1] => destruct (s_row s >? h - 1) eqn:C1 end.
+    all: wh_norm; rewrite ?Hh, ?Hw.
+    all: cbn [t_row t_col set_cursor set_row set_col].
+    all: match goal with |- context[s_col ?s >? w - 1] => destruct (s_col s >? w - 1) eqn:C2 end.
+    all: cbn.
+    all: unfold set_vpen, set_pos; cbn; f_equal; lia.
+Qed.
+
+End Moves3.
+
+(* ------------------------------------------------------------------ grids: tools *)
+
+Lemma zget_zskipn' {A} (l : list A) n i : zget (zskipn n l) i = if i <? 0 then None else zget l (i + Z.max 0 n).
+Proof.
+  destruct (Z_le_dec 0 n).
+  - rewrite zget_zskipn by lia. replace (Z.max 0 n) with n by lia. reflexivity.
+  - unfold zskipn. replace (Z.to_nat n) with O by lia. cbn [skipn].
+    replace (i + Z.max 0 n) with i by lia. case_if; [now rewrite zget_neg by lia | reflexivity].
+Qed.
+
+#[local] Hint Rewrite @zget_app_if @zget_map @zget_zfirstn @zget_zskipn' @zget_zrepeat @zget_single
+  @zlen_app @zlen_map @zlen_zfirstn @zlen_zskipn @zlen_zrepeat @zlen_single : zg.
+
+(* the end game of a pointwise proof: split on every index test, close by arithmetic *)
+Ltac pw_finish :=
+  repeat case_if; try (exfalso; zl); try reflexivity;
+  try (f_equal; zl); try (f_equal; f_equal; zl).
+
+Lemma abs_set_active w h t g' :
+  Inv w h t -> grid_ok w h g' -> abs (set_active t g') = set_grid (abs t) (abs_grid g').
+Proof.
+  intros HI Hg.
+  assert (Hh : height (set_active t g') = height t).
+  { unfold height. rewrite active_set_active. destruct Hg as [Hl _]. rewrite Hl. symmetry. apply (Inv_height w h t HI). }
+  assert (Hw : width (set_active t g') = width t).
+  { unfold width at 1. rewrite active_set_active. rewrite (Inv_width w h t HI).
+    destruct Hg as [Hl HF]. destruct g' as [|r g']; [rewrite zlen_nil in Hl; destruct HI; lia|].
+    inversion HF as [|? ? Hr]; subst; apply Hr. }
+  unfold abs at 1. rewrite Hh, Hw, active_set_active.
+  unfold set_active. destruct (t_onalt t) eqn:E; unfold abs, set_grid; cbn; rewrite E; reflexivity.
+Qed.
+
+Lemma cur_line_abs w h t line : Inv w h t -> zget (active t) (t_row t) = Some line ->
+  cur_line (abs t) = abs_line line.
+Proof. intros HI Hg. unfold cur_line, abs; cbn [v_row v_grid]. now apply at_abs_grid. Qed.
+
+(* an operation that rewrites the cursor's line *)
+Lemma abs_row_op w h t line line' :
+  Inv w h t -> zget (active t) (t_row t) = Some line -> row_ok w line' ->
+  abs (set_active t (upd_nat (active t) (Z.to_nat (t_row t)) line'))
+  = set_cur_line (abs t) (abs_line line').
+Proof.
+  intros HI Hg Hl'.
+  pose proof (Inv_WF w h t HI) as HW. destruct (WFs_active _ _ _ _ HW) as [Hlen HF].
+  assert (Hr : 0 <= t_row t < zlen (active t)) by (destruct HW; lia).
+  rewrite (abs_set_active w h); auto.
+  - unfold set_cur_line. f_equal. rewrite abs_grid_upd by assumption. reflexivity.
+  - split; [rewrite zlen_upd_nat; assumption | now apply upd_nat_Forall].
+Qed.
+
+Lemma Inv_set_active w h t g' : Inv w h t -> grid_ok w h g' -> Inv w h (set_active t g').
+Proof.
+  intros HI Hg. apply (Inv_frame w h t); auto.
+  - apply WFs_set_active; [apply HI | assumption].
+  - unfold set_active; destruct (t_onalt t); reflexivity.
+  - unfold set_active; destruct (t_onalt t); reflexivity.
+  - unfold set_active; destruct (t_onalt t); reflexivity.
+  - unfold set_active; destruct (t_onalt t); reflexivity.
+  - unfold set_active; destruct (t_onalt t) eqn:E; cbn; rewrite ?E; reflexivity.
+Qed.
+
+Lemma Inv_set_last w h t b : Inv w h t -> Inv w h (set_last t b).
+Proof. intros HI. apply (Inv_frame w h t); auto. apply WFs_set_last, HI. Qed.
+
+Lemma abs_set_last_false t : t_last t = false -> abs (set_last t false) = abs t.
+Proof. intros H. unfold abs; cbn. rewrite H. reflexivity. Qed.
+
+(* the cursor's line exists *)
+Lemma cur_row w h t : Inv w h t -> exists line, zget (active t) (t_row t) = Some line /\ row_ok w line.
+Proof.
+  intros HI. pose proof (Inv_WF w h t HI) as HW. destruct (WFs_active _ _ _ _ HW) as [Hlen HF].
+  apply zget_ok; [destruct HW; lia | assumption].
+Qed.
+
+(* erasing a range of a line *)
+Lemma abs_line_erase bgc lo hi (l : trow) :
+  0 <= lo -> lo <= hi -> hi <= zlen l ->
+  abs_line (map_range (erase_cell bgc) lo hi l)
+  = zfirstn lo (abs_line l) ++ zrepeat (Blank bgc) (hi - lo) ++ zskipn hi (abs_line l).
+Proof.
+  intros H1 H2 H3. apply list_ext_all; intros i. unfold abs_line.
+  rewrite zget_map, zget_map_range by assumption. autorewrite with zg.
+  destruct (Z_lt_dec i 0); [rewrite !zget_neg by lia; pw_finish|].
+  destruct (zget l i) as [c|] eqn:G.
+  - pose proof (zget_some_range _ _ _ G). pw_finish.
+    all: try (rewrite G; reflexivity).
+    all: try (replace (i - Z.min (Z.max 0 lo) (zlen l) - Z.max 0 (hi - lo) + Z.max 0 hi) with i by zl; rewrite G; reflexivity).
+  - apply zget_none_range in G. pw_finish.
+    all: try (rewrite zget_beyond by zl; reflexivity).
+Qed.
